@@ -56,7 +56,7 @@ def write_cells(path, cells, sheets_before=0):
     """cells: list of (kind, value); laid out row-major in rows of WIDTH cells."""
     import xlsxwriter
 
-    workbook = xlsxwriter.Workbook(path)
+    workbook = harness.new_workbook(path)
     date_format = workbook.add_format({"num_format": "yyyy-mm-dd hh:mm:ss"})
     time_format = workbook.add_format({"num_format": "hh:mm:ss"})
     for _ in range(sheets_before):
@@ -178,7 +178,7 @@ def judge_sheets(case, part):
     m = harness.modules()
     count, requested = case["sheets"], case["sheet"]
     path = path_for("sheets")
-    workbook = xlsxwriter.Workbook(path)
+    workbook = harness.new_workbook(path)
     for number in range(1, count + 1):
         sheet = workbook.add_worksheet()
         sheet.write_string(0, 0, "sheet%d" % number)
